@@ -41,6 +41,13 @@ def check_case(rep, case, name):
     other = model_text(random.Random(case['seed'] + 1), random.Random(case['seed']).choice(['pair', 'eam', 'fs']))
     try: tabulate_text(other)
     except Exception: pass
+    if case['kind'] != 'pair':
+        # ... and the same model with [Species] overrides for every element (per-model metadata must not outlive that model)
+        import re
+        els = sorted(set(re.findall(r'^([A-Z][a-z]?)(?:->[A-Z][a-z]?)? :', ini, re.M)))
+        over = ini + '\n[Species]\n' + ''.join('%s.atomic_mass : 999.5\n%s.lattice_constant : 7.75\n%s.atomic_number : 3\n%s.lattice_type : bcc\n' % (e, e, e, e) for e in els)
+        try: tabulate_text(over)
+        except Exception: pass
     cp = ConfigParser(io.StringIO(ini)); tab = Configuration().read_from_parser(cp)
     for p in reversed(tab.potentials):
         for r_ in (3.3, 0.7, 1.9): p.energy(r_)
